@@ -388,46 +388,69 @@ func c09R3(c *Ctx) {
 		node ast.Node
 		live bool
 		desc string
-		ifs  *ast.IfStmt
+		body []ast.Stmt // statements executed when the test holds
 	}
 	var tests []test
 	ast.Inspect(fn.Decl.Body, func(n ast.Node) bool {
-		is, ok := n.(*ast.IfStmt)
-		if !ok {
-			return true
+		// if-form and tagless-switch form of the test
+		type guarded struct {
+			conds []ast.Node
+			body  []ast.Stmt
 		}
-		scan := func(x ast.Node) {
-			ast.Inspect(x, func(m ast.Node) bool {
-				switch t := m.(type) {
-				case *ast.TypeAssertExpr:
-					if identObj(info, t.X) == errObj && t.Type != nil {
-						ty := types.TypeString(info.TypeOf(t.Type), nil)
-						_, isIface := info.TypeOf(t.Type).Underlying().(*types.Interface)
-						live := kinds.any || kinds.types[ty] || isIface
-						tests = append(tests, test{t, live, "type assertion to " + ty, is})
+		var gs []guarded
+		switch t := n.(type) {
+		case *ast.IfStmt:
+			g := guarded{conds: []ast.Node{t.Cond}, body: t.Body.List}
+			if t.Init != nil {
+				g.conds = append(g.conds, t.Init)
+			}
+			gs = append(gs, g)
+		case *ast.SwitchStmt:
+			if t.Tag == nil {
+				for _, cl := range t.Body.List {
+					cc := cl.(*ast.CaseClause)
+					g := guarded{body: cc.Body}
+					for _, x := range cc.List {
+						g.conds = append(g.conds, x)
 					}
-				case *ast.CallExpr:
-					callee := Callee(info, t)
-					if callee != nil && callee.Pkg() != nil && (callee.Pkg().Path() == "errors" || callee.Pkg().Path() == "github.com/pkg/errors") && callee.Name() == "Is" && len(t.Args) == 2 && identObj(info, t.Args[0]) == errObj {
-						s := identObjSel(info, t.Args[1])
-						live := kinds.any || (s != nil && kinds.sentinels[s])
-						tests = append(tests, test{t, live, "errors.Is(err, " + exprString(t.Args[1]) + ")", is})
-					}
+					gs = append(gs, g)
 				}
-				return true
-			})
+			}
 		}
-		if is.Init != nil {
-			scan(is.Init)
+		for _, gd := range gs {
+			gd := gd
+			scan := func(x ast.Node) {
+				ast.Inspect(x, func(m ast.Node) bool {
+					switch t := m.(type) {
+					case *ast.TypeAssertExpr:
+						if identObj(info, t.X) == errObj && t.Type != nil {
+							ty := types.TypeString(info.TypeOf(t.Type), nil)
+							_, isIface := info.TypeOf(t.Type).Underlying().(*types.Interface)
+							live := kinds.any || kinds.types[ty] || isIface
+							tests = append(tests, test{t, live, "type assertion to " + ty, gd.body})
+						}
+					case *ast.CallExpr:
+						callee := Callee(info, t)
+						if callee != nil && callee.Pkg() != nil && (callee.Pkg().Path() == "errors" || callee.Pkg().Path() == "github.com/pkg/errors") && callee.Name() == "Is" && len(t.Args) == 2 && identObj(info, t.Args[0]) == errObj {
+							s := identObjSel(info, t.Args[1])
+							live := kinds.any || (s != nil && kinds.sentinels[s])
+							tests = append(tests, test{t, live, "errors.Is(err, " + exprString(t.Args[1]) + ")", gd.body})
+						}
+					}
+					return true
+				})
+			}
+			for _, cnd := range gd.conds {
+				scan(cnd)
+			}
 		}
-		scan(is.Cond)
 		return true
 	})
 	tolerates := false
 	for _, t := range tests {
 		// body returns nil
 		retNil := false
-		for _, s := range t.ifs.Body.List {
+		for _, s := range t.body {
 			if r, ok := s.(*ast.ReturnStmt); ok && len(r.Results) == 1 && info.Types[ast.Unparen(r.Results[0])].IsNil() {
 				retNil = true
 			}
